@@ -9,8 +9,8 @@ from harness.driver import Driver, DriverError
 PID = 'C06'
 THEOREMS = ['PyDBML.C06.build_rule_abiding', 'PyDBML.C06.addTable_clash', 'PyDBML.C06.addTable_error', 'PyDBML.C06.addEnum_error',
             'PyDBML.C06.enumStep_error', 'PyDBML.C06.buildGroup_ok', 'PyDBML.C06.buildGroup_error', 'PyDBML.C06.groupStep_twice',
-            'PyDBML.C06.refStep_ok', 'PyDBML.C06.locateTable_sound', 'PyDBML.C06.locateTable_error', 'PyDBML.C06.locateTable_complete']
-MODULES = ['PyDBMLProofs.Props.C06']
+            'PyDBML.C06.refStep_ok', 'PyDBML.C06.locateTable_sound', 'PyDBML.C06.locateTable_error', 'PyDBML.C06.locateTable_complete', 'PyDBML.C06.parseDoc_tables_ok']
+MODULES = ['PyDBMLProofs.Props.C06', 'PyDBMLProofs.Props.C06Grammar', 'PyDBMLProofs.Hoare']
 
 VIOLATIONS = {
     'dupTable': 'lib:DatabaseValidationError', 'dupAlias': 'lib:DatabaseValidationError',
@@ -152,8 +152,9 @@ def main(tier, seed):
                     'yields a database; *_error / addTable_clash / groupStep_twice - the error is the one of the rule; locateTable_sound / '
                     '_error / _complete - a lookup binds to a table carrying exactly the key asked for, or ends in TableNotFoundError. '
                     'Oracle: the real parser must raise exactly the error class of the violated rule and never return a database. '
-                    'Correspondence: the Lean parser+build model gives the same class on every such document. The column-less table '
-                    'rule lives in the grammar model (tableRule: noColumns) and is covered by correspondence only.',
+                    'Correspondence: the Lean parser+build model gives the same class on every such document. parseDoc_tables_ok - for ANY text, '
+                    'every table blueprint leaving the grammar model has a column (a column-less declaration ends in the SyntaxError of '
+                    'parse_table) and every index a subject (postcondition logic of Hoare.lean over the grammar rules).',
         assumptions=['the base document is accepted (checked) so the injected declaration is the only violation'],
         trusted_base=['Lean 4.33 kernel', 'axioms: propext, Classical.choice, Quot.sound only', 'hand-written Lean model tied by this correspondence', 'harness/speller.py'],
         kf_replay=kf_replay, proof_problems=problems)
